@@ -7,6 +7,8 @@ C17  Allocation-free search equals the allocating one for every buffer size.
 import TzVerif.Model.Find
 import TzVerif.Proofs.Buffer
 import TzVerif.Proofs.SrcEqFind
+import TzVerif.Proofs.SrcEqList
+import TzVerif.Proofs.SrcEqEntry
 
 namespace TzVerif.C17
 open TzVerif.Model
@@ -60,12 +62,89 @@ theorem translated_source_is_the_model (y mo d h mi s ns : Int) (z : TimeZone) :
   Proofs.SrcEq.find_date_time_eq y mo d h mi s ns z
 
 /-- `same_search` with the translated search: both entry points hold exactly what the source's `find_date_time`
-    pushes (the two `DateTimeList` containers themselves are modelled, not translated) -/
+    pushes -/
 theorem same_search_src (buf : List (Option Found)) (y mo d h mi s ns : Int) (z : TimeZone) :
     findN buf y mo d h mi s ns z =
       (match Src.find_date_time [] y mo d h mi s ns z with
        | .error e => .error e
        | .ok rs => .ok (rs.foldl RefMut.push (RefMut.new buf))) := by
   rw [Proofs.SrcEq.find_date_time_eq]; exact same_search buf y mo d h mi s ns z
+
+/-- the two result containers of src/datetime/find.rs, translated (`&mut self` methods return the updated container
+    next to their value), are the model's: constructor, `push` of both `DateTimeList` implementations, `data`,
+    `count`, `is_exhaustive` and the three accessors of each -/
+theorem translated_containers_are_the_model :
+    (∀ buf, Src.FoundDateTimeListRefMut.new buf = RefMut.new buf) ∧
+    (∀ r f, Src.FoundDateTimeListRefMut.push r f = ((), RefMut.push r f)) ∧
+    (∀ l f, Src.FoundDateTimeList.push l f = ((), l ++ [f])) ∧
+    (∀ r, Src.FoundDateTimeListRefMut.data r = RefMut.data r) ∧
+    (∀ r : RefMut, Src.FoundDateTimeListRefMut.count r = (r.count : Int)) ∧
+    (∀ r, Src.FoundDateTimeListRefMut.is_exhaustive r = RefMut.isExhaustive r) ∧
+    (∀ r, Src.FoundDateTimeListRefMut.unique r = RefMut.unique r) ∧
+    (∀ r, Src.FoundDateTimeListRefMut.earliest r = RefMut.earliest r) ∧
+    (∀ r, Src.FoundDateTimeListRefMut.latest r = RefMut.latest r) ∧
+    (∀ l, Src.FoundDateTimeList.unique l = listUnique l) ∧
+    (∀ l, Src.FoundDateTimeList.earliest l = listEarliest l) ∧
+    (∀ l, Src.FoundDateTimeList.latest l = listLatest l) :=
+  ⟨Proofs.SrcEq.refmut_new_eq, Proofs.SrcEq.refmut_push_eq, Proofs.SrcEq.list_push_eq, Proofs.SrcEq.refmut_data_eq,
+   Proofs.SrcEq.refmut_count_eq, Proofs.SrcEq.refmut_is_exhaustive_eq, Proofs.SrcEq.refmut_unique_eq,
+   Proofs.SrcEq.refmut_earliest_eq, Proofs.SrcEq.refmut_latest_eq, Proofs.SrcEq.list_unique_eq,
+   Proofs.SrcEq.list_earliest_eq, Proofs.SrcEq.list_latest_eq⟩
+
+/-- `push_all` about the translated container: pushing any sequence with the source's `push` into a wrapper made by
+    the source's `new`, then reading it with the source's `data` / `count` / `is_exhaustive` -/
+theorem push_all_src (buf : List (Option Found)) (rs : List Found) :
+    let r := rs.foldl (fun acc f => (Src.FoundDateTimeListRefMut.push acc f).2) (Src.FoundDateTimeListRefMut.new buf)
+    r.buf = (rs.take buf.length).map some ++ buf.drop (min buf.length rs.length) ∧
+    r.buf.length = buf.length ∧
+    Src.FoundDateTimeListRefMut.count r = (rs.length : Int) ∧
+    Src.FoundDateTimeListRefMut.data r = (rs.take buf.length).map some ∧
+    (Src.FoundDateTimeListRefMut.is_exhaustive r = true ↔ buf.length ≥ rs.length) := by
+  intro r
+  have hr : r = rs.foldl RefMut.push (RefMut.new buf) := by
+    show rs.foldl _ (Src.FoundDateTimeListRefMut.new buf) = _
+    rw [Proofs.SrcEq.refmut_new_eq, Proofs.SrcEq.refmut_pushes_eq]
+  have h := push_all buf rs
+  simp only [Proofs.SrcEq.refmut_count_eq, Proofs.SrcEq.refmut_data_eq, Proofs.SrcEq.refmut_is_exhaustive_eq, hr]
+  refine ⟨h.1, h.2.1, ?_, h.2.2.2.1, h.2.2.2.2⟩
+  rw [h.2.2.1]
+
+/-- `accessors_agree` about the translated containers: when the buffer is large enough, the wrapper's accessors
+    return what the allocating list's accessors return on the same pushed sequence -/
+theorem accessors_agree_src (buf : List (Option Found)) (rs : List Found) (h : buf.length ≥ rs.length) :
+    let r := rs.foldl (fun acc f => (Src.FoundDateTimeListRefMut.push acc f).2) (Src.FoundDateTimeListRefMut.new buf)
+    let l := rs.foldl (fun acc f => (Src.FoundDateTimeList.push acc f).2) []
+    l = rs ∧
+    Src.FoundDateTimeListRefMut.unique r = Src.FoundDateTimeList.unique l ∧
+    Src.FoundDateTimeListRefMut.earliest r = Src.FoundDateTimeList.earliest l ∧
+    Src.FoundDateTimeListRefMut.latest r = Src.FoundDateTimeList.latest l := by
+  intro r l
+  have hr : r = rs.foldl RefMut.push (RefMut.new buf) := by
+    show rs.foldl _ (Src.FoundDateTimeListRefMut.new buf) = _
+    rw [Proofs.SrcEq.refmut_new_eq, Proofs.SrcEq.refmut_pushes_eq]
+  have hl : l = rs := by
+    show rs.foldl _ [] = rs
+    have := Proofs.SrcEq.list_pushes_eq rs []
+    simpa using this
+  have ha := accessors_agree buf rs h
+  simp only [Proofs.SrcEq.refmut_unique_eq, Proofs.SrcEq.refmut_earliest_eq, Proofs.SrcEq.refmut_latest_eq,
+    Proofs.SrcEq.list_unique_eq, Proofs.SrcEq.list_earliest_eq, Proofs.SrcEq.list_latest_eq, hr, hl]
+  exact ⟨trivial, ha.1, ha.2.1, ha.2.2⟩
+
+/-- the two entry points themselves, translated (src/datetime/mod.rs `DateTime::find`, `DateTime::find_n`): for every
+    buffer, every searched date-time and every zone they fail together with the same error, and on success `find_n`
+    holds the sequence `find` returns pushed into the buffer — so `push_all` and `accessors_agree` are statements
+    about what the two public functions return -/
+theorem both_entry_points_src (buf : List (Option Found)) (y mo d h mi s ns : Int) (z : TimeZone) :
+    Src.DateTime.find_n buf y mo d h mi s ns z =
+      (match Src.DateTime.find y mo d h mi s ns z with
+       | .error e => .error e
+       | .ok rs => .ok (rs.foldl RefMut.push (RefMut.new buf))) := by
+  rw [Proofs.SrcEq.find_n_eq, Proofs.SrcEq.find_eq]; exact same_search buf y mo d h mi s ns z
+
+theorem translated_entry_points_are_the_model :
+    (∀ y mo d h mi s ns z, Src.DateTime.find y mo d h mi s ns z = findDateTime y mo d h mi s ns z) ∧
+    (∀ buf y mo d h mi s ns z, Src.DateTime.find_n buf y mo d h mi s ns z = findN buf y mo d h mi s ns z) :=
+  ⟨Proofs.SrcEq.find_eq, Proofs.SrcEq.find_n_eq⟩
 
 end TzVerif.C17
